@@ -17,6 +17,11 @@
 (*                  block is left normally; a block left by IgnoreCommits / an exception acknowledges *)
 (*                  nothing [DbEnter, DbLeave, DbReturn].  The reload of a restarted process          *)
 (*                  [DbReload] rebuilds the pseudonym from the rows the connection sees.              *)
+(*                  A record is its primary key; the byte strings written under it are its FORMS (val): an    *)
+(*                  INSERT meets a stored row as its conflict clause says [DbExecute(r, v, mode)]; the row of   *)
+(*                  an acknowledged record keeps the form it was acknowledged with [ackv, AckedUnchanged].     *)
+(*                  sqlite may FAIL a statement (full volume, I/O error, busy) [DbFail(d, rb)]: no effect, the *)
+(*                  transaction kept or rolled back - what the caller was storing is not stored.               *)
 (* Layer 2 [P..]   : the program: one action per statement the code issues, in the order the code    *)
 (*                  issues them (open = read version, [upgrade], schema script; insert = BEGIN,     *)
 (*                  INSERT, COMMIT, return), a crash possible between any two of them; the commit    *)
